@@ -9,6 +9,8 @@ use crate::schema::Implementers;
 use crate::validation::diagnostics::DiagnosticData;
 use crate::validation::variable::walk_selections_with_deduped_fragments;
 use crate::validation::CycleError;
+use crate::validation::DepthCounter;
+use crate::validation::DepthGuard;
 use crate::validation::DiagnosticList;
 use crate::validation::OperationValidationContext;
 use crate::validation::RecursionGuard;
@@ -278,6 +280,7 @@ pub(crate) fn validate_fragment_cycles(
         selection_set: &'doc executable::SelectionSet,
         path_from_root: &mut RecursionGuard<'_>,
         seen: &mut HashSet<&'doc Name>,
+        mut depth: DepthGuard<'_>,
     ) -> Result<(), CycleError<executable::FragmentSpread>> {
         for selection in &selection_set.selections {
             match selection {
@@ -301,15 +304,28 @@ pub(crate) fn validate_fragment_cycles(
                             &fragment.selection_set,
                             &mut path_from_root.push(&fragment.name)?,
                             seen,
+                            depth.increment()?,
                         )
                         .map_err(|error| error.trace(spread))?;
                     }
                 }
                 executable::Selection::InlineFragment(inline) => {
-                    detect_fragment_cycles(document, &inline.selection_set, path_from_root, seen)?;
+                    detect_fragment_cycles(
+                        document,
+                        &inline.selection_set,
+                        path_from_root,
+                        seen,
+                        depth.increment()?,
+                    )?;
                 }
                 executable::Selection::Field(field) => {
-                    detect_fragment_cycles(document, &field.selection_set, path_from_root, seen)?;
+                    detect_fragment_cycles(
+                        document,
+                        &field.selection_set,
+                        path_from_root,
+                        seen,
+                        depth.increment()?,
+                    )?;
                 }
             }
         }
@@ -318,12 +334,18 @@ pub(crate) fn validate_fragment_cycles(
     }
 
     let mut visited = RecursionStack::with_root(def.name.clone()).with_limit(100);
+    // `visited` only limits the number of fragments on the path. The walk also recurses into
+    // fields and inline fragments, whose nesting adds up across the fragments of a chain
+    // (the parser limits it only within one definition), so it is limited as well,
+    // with the same limit as the other selection walks.
+    let mut depth = DepthCounter::new().with_limit(500);
 
     match detect_fragment_cycles(
         document,
         &def.selection_set,
         &mut visited.guard(),
         &mut HashSet::default(),
+        depth.guard(),
     ) {
         Ok(_) => {}
         Err(CycleError::Recursed(trace)) => {
